@@ -189,7 +189,12 @@ def shard(binpath, seed, sh, n):
                 expect = "accept"
             child["layout"]["inspect"] = [insp]
         elif mode == "inner_expired":
-            child["layout"]["expires"] = "2020-01-01T00:00:00Z"
+            # long ago, or only just (seconds, hours, almost a day)
+            import datetime
+            ago = rng.choice([None, 20, 3600, 7200, 23 * 3600, 86400 + 60])
+            child["layout"]["expires"] = "2020-01-01T00:00:00Z" if ago is None else scen.iso(
+                datetime.datetime.now(datetime.timezone.utc) - datetime.timedelta(seconds=ago))
+            sc_note = "long_ago" if ago is None else ("within_a_day" if ago < 86400 else "over_a_day")
         elif mode == "inner_link_missing":
             ist = rng.choice(child["steps"])
             ist["evidence"][0]["absent"] = True
@@ -241,7 +246,9 @@ def shard(binpath, seed, sh, n):
         step_name = rng.choice([None, "final", ""])
         def shape(nd):
             return [[s_["name"]] + [("L" if e_["kind"] == "link" else shape(e_["node"])) for e_ in s_["evidence"]] for s_ in nd["steps"]]
-        sc = {"node": node, "mode": mode, "expect": expect, "depth": d + 1, "tamper": tamper, "step_name": step_name,
+        if mode != "inner_expired":
+            sc_note = None
+        sc = {"node": node, "mode": mode, "expect": expect, "note": sc_note, "depth": d + 1, "tamper": tamper, "step_name": step_name,
               "target": st["name"], "shape": shape(node),
               "tree_depth": depth, "ndelegated": len(dl)}
         sc["base"] = len(reqs)
@@ -274,7 +281,7 @@ def shard(binpath, seed, sh, n):
             res.classes["scenario_dropped_file_name_collision"] += 1
             continue
         summary = pipeline.summary_of(node, sc["step_name"] or "")
-        meta = {"mode": sc["mode"], "expect": sc["expect"], "depth": sc["depth"], "tree_depth": sc["tree_depth"],
+        meta = {"mode": sc["mode"], "expect": sc["expect"], "depth": sc["depth"], "tree_depth": sc["tree_depth"], "note": sc.get("note"),
                 "summary": summary, "ndelegated": sc["ndelegated"], "target": sc["target"], "shape": sc["shape"]}
         cases.append(scen.verify_case(wires[node["req"]], [[W.kid("ed0"), W.pub("ed0")]], files,
                                       step_name=sc["step_name"], meta=meta))
@@ -285,6 +292,8 @@ def shard(binpath, seed, sh, n):
         if ok is None:
             continue
         cls = [f"mode:{m['mode']}", f"depth:{m['depth']}", f"tree_depth:{m['tree_depth']}", "accepted" if ok else "rejected"]
+        if m.get("note"):
+            cls.append(f"inner_expired:{m['note']}")
         if ok and m["expect"] == "accept":
             cls += ["positive_control_accepted", f"positive_at_tree_depth:{m['tree_depth']}", "summary_compared"]
         res.note([c["layout"], sorted(c["files"].items())], True, cls=cls)
@@ -401,5 +410,5 @@ def main(ctx):
                   "mode:inner_link_missing", "mode:links_in_parent_dir", "mode:links_in_other_key_dir",
                   "mode:parent_disallows_summary_product", "mode:parent_requires_summary_product", "mode:inner_rule_fail",
                   "mode:multi_delegation:all_good", "mode:multi_delegation:dir_missing", "mode:multi_delegation:inner_link_unauth",
-                  "depth:2", "rejected", "mode:outside:control", "mode:outside:parent_dir", "mode:outside:sibling_dir"],
+                  "depth:2", "rejected", "inner_expired:within_a_day", "mode:outside:control", "mode:outside:parent_dir", "mode:outside:sibling_dir"],
         min_evals=400)
